@@ -166,7 +166,20 @@ def run(ctx, rep):
             rep.ok('D3.scores', tn, c, 'argument kind P0 = clip(univariate.cdf(column), EPSILON, 1 - EPSILON)')
         elif not ks & {"'P'"}:
             rep.undecided('D3.scores', tn, c, f'kind of the argument: {ks}')
-    gauss.report_order(ctx, rep, 'D4.labels', ['_get_correlation'], floor=2)
+    gauss.report_order(ctx, rep, 'D4.labels', ['_get_correlation'])
+    # a block computed for a subset of the columns must not be written at leading positions of the full matrix
+    from ..kinds import OrderKind, fmt_tag
+    okd = OrderKind(ctx)
+    frp = Frame(fn, {}, cls)
+    for st_ in walk_no_nested(fn.node):
+        if isinstance(st_, ast.Assign) and isinstance(st_.targets[0], ast.Subscript) and isinstance(st_.targets[0].slice, ast.Tuple):
+            sl = st_.targets[0].slice.elts
+            leading = all(isinstance(x, ast.Slice) and x.lower is None and x.upper is not None for x in sl)
+            v = okd.value(st_.value, frp)
+            if leading and isinstance(v, tuple) and v and v[0] == 'mat' and isinstance(v[1], tuple) and v[1][0] == 'filter' \
+                    and not str(v[1][2]).startswith('fit.') and v[1][2] != '_get_correlation.X':
+                rep.bad('D4.labels', fn, st_, f'a block whose rows/columns are {fmt_tag(v[1])} is written at the leading positions of the matrix: '
+                        'unless the selected columns happen to come first, correlations are stored under the wrong columns')
     # D5: dominance in fit
     fit = gauss.gm_method(ctx, 'fit')
     cfg = CFG(fit.node)
